@@ -63,6 +63,19 @@ CLAIMED.update({
    design="4 C06"),
 })
 
+CLAIMED.update({
+ "C07": dict(
+   technique="Coq proof of the printer model against an s-expression-level SMT-LIB specification (core/SmtStd.v: term grammar, parallel let, binders, indexed identifiers, std_eval, std_script_ok) + token-exact model/implementation correspondence for both printers and the script + an independent SMT-LIB reader/evaluator (harness/smtread.py) with z3/cvc5 as second readers in the thorough tier",
+   text="PARTIAL. coq/props/C07.v: tree-printer soundness (std_eval of the printed s-expression = eval of the term) for all interpretations and binder nestings on the fragment `wfp` (Bool, ITE, Equals, Int/Real arithmetic, quantifiers, UF, BV constants and non-indexed BV operators, select/store, string operators except the misnamed ones); the DAG printer is characterised structurally (its let chain builds the root's memoised text); several spellings and two script-level clauses are refuted by closed witnesses (open findings). Indexed BV operators, string constants, array values, DAG freshness and static sorting are carried by 660 (quick) / several thousand (thorough) token-exact comparisons and by the independent reader on both printers.",
+   note="Trusted: Coq kernel, core/SmtStd.v (SMT-LIB specification, ~800 lines) and core/Sem.v, hand models tied by token-exact correspondence, harness/smtread.py + refeval.py. Nine open findings (Int division printed as /, pre-2.6 string function names, pow, parametric/custom sort declarations, quoting of names with | or backslash and of sort names, unicode escapes in string literals).",
+   design="4 C07"),
+ "C10": dict(
+   technique="Coq structural-induction proofs over hand models of NNFizer / AIGer / partitions / Shannon / self-substitution / TimesDistributor + per-run model/implementation correspondence (exact structure) + independent-evaluator search oracle (also the only cover for prenex and propagate_toplevel)",
+   text="coq/props/C10.v: NNF, AIG, conjunctive/disjunctive partitions, both Boolean quantifier eliminations and TimesDistributor (Int, Real) preserve the value for all terms of the stated fragments and all well-sorted interpretations; AIG and QE shapes proved; the NNF shape clause is refuted for negated Boolean ITE (open finding) with its partial version. Prenex normal form and propagate_toplevel are NOT modelled in Coq (propagate_toplevel refuted on a last-step model, open finding): they are covered by the reference-evaluator oracle and shape predicates only.",
+   note="Trusted: Coq kernel, core/Sem.v, hand models tied by exact correspondence, local constructor/substitution stand-ins (models/C10Local.v), harness/refeval.py with exact quantifier evaluation only.",
+   design="4 C10"),
+})
+
 NOT_YET = "machinery for this property is not built yet (work in progress, see DESIGN.md section 8)"
 
 def main():
